@@ -17,6 +17,7 @@ def run(chk):
     F.write(F.f_spell(), raw)
     g = json.loads(d.vh(["gate", "--defs", raw, "--out", defs]).strip().splitlines()[-1])
     chk.extra["definitions"] = g["accepted"]
+    os.environ["DEFS"] = defs
     rp = os.path.join(w, "replay.ndjson")
     r = d.tlc("mc/MC_Spell.tla", "mc/MC_Spell_%s.cfg" % chk.tier, "c08", workers=8 if quick else 14, env={"DEFS": defs},
               replay_out=rp, timeout=7200, extra=["-continue"], heap="8g")
@@ -39,7 +40,6 @@ def run(chk):
     n = 3000 if quick else 100000
     tr = os.path.join(w, "trace.ndjson")
     d.vh(["spell-record", "--defs", defs, "--seed", chk.seed, "--n", n, "--maxelems", 6 if quick else 10, "--out", tr])
-    os.environ["DEFS"] = defs
     d.judge_trace(chk, "trace/Trace_Spell.tla", "trace/Trace_Spell.cfg", "c08t", tr, show)
     chk.evaluations += 2 * n
     chk.sample(json.loads(open(tr).readline()))
